@@ -98,7 +98,7 @@ func (c *Ctx) Rng(stream string, idx int) *rand.Rand {
 	return rand.New(rand.NewSource(s))
 }
 
-func (c *Ctx) SetRule(r string)        { c.mu.Lock(); c.rule = r; c.mu.Unlock() }
+func (c *Ctx) SetRule(r string) { c.mu.Lock(); c.rule = r; c.mu.Unlock() }
 func (c *Ctx) Assume(a string) {
 	c.mu.Lock()
 	defer c.mu.Unlock()
@@ -109,11 +109,15 @@ func (c *Ctx) Assume(a string) {
 	}
 	c.assumptions = append(c.assumptions, a)
 }
-func (c *Ctx) SetExhaustive(b bool)    { c.mu.Lock(); c.exhaustive = &b; c.mu.Unlock() }
-func (c *Ctx) Eval(n int)              { c.mu.Lock(); c.evals += int64(n); c.mu.Unlock() }
-func (c *Ctx) Count(k string, n int)   { c.mu.Lock(); c.counters[k] += int64(n); c.mu.Unlock() }
-func (c *Ctx) Counter(k string) int64  { c.mu.Lock(); defer c.mu.Unlock(); return c.counters[k] }
-func (c *Ctx) HarnessError(msg string) { c.mu.Lock(); c.harnessErr = append(c.harnessErr, msg); c.mu.Unlock() }
+func (c *Ctx) SetExhaustive(b bool)   { c.mu.Lock(); c.exhaustive = &b; c.mu.Unlock() }
+func (c *Ctx) Eval(n int)             { c.mu.Lock(); c.evals += int64(n); c.mu.Unlock() }
+func (c *Ctx) Count(k string, n int)  { c.mu.Lock(); c.counters[k] += int64(n); c.mu.Unlock() }
+func (c *Ctx) Counter(k string) int64 { c.mu.Lock(); defer c.mu.Unlock(); return c.counters[k] }
+func (c *Ctx) HarnessError(msg string) {
+	c.mu.Lock()
+	c.harnessErr = append(c.harnessErr, msg)
+	c.mu.Unlock()
+}
 
 // Max keeps the maximum seen for a counter.
 func (c *Ctx) Max(k string, n int) {
